@@ -224,6 +224,12 @@ def d5(ctx):
             fs = ctx.facts_of(ev, rets[0])
             sent = [f for f in fs if f[0] == "cmp" and f[1] == "Eq" and tag(f[3]) == "named" and f[3][1].startswith("SENTINEL_SEGMENT_NODE")]
             ok_r = len(sent) == 2
+            if not ok_r:
+                # the emptiness test kept in a flag (`let empty = size == SENTINEL && next == SENTINEL;`) or behind a helper's Option: every way to the return says both
+                import dnf as D
+                d = D.block_dnf(ev, res, b, rets[0]["bb"])
+                d = D.expand_bool_joins(ev, res, b, d) if d is not None else None
+                ok_r = bool(d) and all(len(set(f[3][1] for f in c if f[0] == "cmp" and f[1] == "Eq" and tag(f[3]) == "named" and f[3][1].startswith("SENTINEL_SEGMENT_NODE"))) == 2 for c in d)
         yield Ob(key_of("C20-D5", b.path, "return-only-on-empty"), ok_r, "returns only when the sentinel is (SENTINEL, SENTINEL), i.e. the list is empty", b.loc())
 
 
@@ -236,14 +242,14 @@ def d6(ctx):
         ok = len(calls) == 1
         if ok:
             fs = ctx.facts_of(ev, calls[0])
-            ok = ("bool", field(SELF, "ro"), False) in fs and any(f[0] == "discr" and f[1] == field(SELF, "freelist") and (f[2] == ("ne", (0,)) or (f[2][0] == "eq" and f[2][1] != 0)) for f in fs)
+            ok = ("bool", field(SELF, "ro"), False) in fs and any(f[0] == "discr" and f[1] == field(SELF, "freelist") and rel_excludes(f[2], 0) for f in fs)
         if not ok and len(calls) == 1:
             # the Freelist::None test made inside discard_freelist_in: every effect of the whole operation lies behind `writable` and `kind != None`
             ev2, res2 = ctx.eval(b, no_inline=tuple(p_ for p_ in NOINLINE if "discard_freelist_in" not in p_))
             effs = list_effects(res2) + discarded_writes(res2, fl)
             def guarded(e):
                 fs_ = ctx.facts_of(ev2, e)
-                return ("bool", field(SELF, "ro"), False) in fs_ and any(f[0] == "discr" and f[1] == field(SELF, "freelist") and (f[2] == ("ne", (0,)) or (f[2][0] == "eq" and f[2][1] != 0)) for f in fs_)
+                return ("bool", field(SELF, "ro"), False) in fs_ and any(f[0] == "discr" and f[1] == field(SELF, "freelist") and rel_excludes(f[2], 0) for f in fs_)
             ok = bool(effs) and all(guarded(e) for e in effs)
         yield Ob(key_of("C20-D6", b.path, "guards"), ok, "discard_freelist_in reached only when writable and the freelist kind is not None", b.loc())
         errs = [r for r in res.log if r["kind"] == "ret0" and not r["chain"] and tag(r["value"]) == "variant" and r["value"][2] == "Err"]
